@@ -473,22 +473,10 @@ func classOf(s *site, x, y string) string {
 	if isIfaceCtx(s.Ctx) && s.resultKind().Under != "" {
 		return "defined-type-dynamic-type"
 	}
-	// (F02-4, F02-9, F02-10, F02-11, F02-14 are repaired — 03fb34b, a1f1717, 149d328, 48cb9d4 —: `x / 0.0`, string(c) of a
-	// constant outside the rune range, -c on typed floating-point and complex constants and `(-4) << b` have no class any
-	// more)
-	// F02-12, what 149d328 leaves of it: `var e interface{} = c0 * c1`, `return c0 / c1` into an interface result with two
-	// typed floating-point (one of them zero) or complex constants is not folded (the node has the interface type) and is
-	// computed by the run-time closure at run-time precision
-	if (s.Op == "mul" || s.Op == "quo") && s.Form == "cc" && (s.Ctx == "ifacevar" || s.Ctx == "ifaceret" || s.Ctx == "ifaceret2") {
-		switch s.kind().Class {
-		case "float":
-			if isZeroConst(s.CL) || isZeroConst(s.CR) {
-				return "const-fold-iface-decl"
-			}
-		case "complex":
-			return "const-fold-iface-decl"
-		}
-	}
+	// (F02-4, F02-9, F02-10, F02-11, F02-12, F02-14 are repaired — 03fb34b, a1f1717, 149d328, 674fd4c, 48cb9d4 —: `x / 0.0`,
+	// string(c) of a constant outside the rune range, -c / c0*c1 / c0/c1 on typed floating-point and complex constants (also
+	// under an interface declaration / result) and `(-4) << b` have no class any more; the only class left is the dynamic
+	// type of a defined type, F02-13)
 	return ""
 }
 
@@ -535,6 +523,9 @@ func watched(s *site, x, y string) []string {
 	}
 	if s.kind().Class == "float" && s.Form == "cc" && (s.Op == "mul" || s.Op == "quo") && (isZeroConst(s.CL) || isZeroConst(s.CR)) {
 		out = append(out, "F02-12:fold-typed-float-zero-constant/"+s.Op)
+	}
+	if (s.Op == "mul" || s.Op == "quo") && s.Form == "cc" && (s.Ctx == "ifacevar" || s.Ctx == "ifaceret" || s.Ctx == "ifaceret2") && (s.kind().Class == "float" || s.kind().Class == "complex") {
+		out = append(out, "F02-12:typed-constants-under-interface-declaration/"+s.kind().Class+"/"+s.Ctx)
 	}
 	if strings.HasPrefix(s.Ctx, "ret") && (negZero(s.kind(), x) || negZero(s.kind2(), y)) {
 		w := "F02-5:negzero-argument/" + s.Ctx
